@@ -196,6 +196,11 @@ class Raises:
                 if rt is not None and rt.name in ("DiameterMessage", "DiameterRequest", "DiameterAnswer") and \
                         not _guarded_by_has_avp(fi, n):
                     out.add("AttributeError")
+            # a registry (dict field) read with a key taken from a received header: `D[k]` needs `k in D` (or a KeyError handler,
+            # which the CFG accounts for) - a duplicate, late or corrupted answer carries a key that is not, or no longer, there
+            if isinstance(n, ast.Subscript) and isinstance(n.ctx, ast.Load) and not isinstance(n.slice, (ast.Slice, ast.Constant)) \
+                    and self._is_registry(n.value) and self._header_keyed(fi, n.slice) and not self._membership_guarded(fi, n):
+                out.add("KeyError")
             if isinstance(n, ast.Subscript) and not isinstance(n.slice, ast.Slice) and isinstance(n.ctx, ast.Load) \
                     and _wire_like(n.value, fi) and not isinstance(n.slice, ast.Constant) or \
                     isinstance(n, ast.Subscript) and isinstance(n.slice, ast.Constant) and isinstance(n.slice.value, int) \
@@ -203,6 +208,74 @@ class Raises:
                 if not ctx.get("len_guard", lambda node: False)(n):
                     out.add("IndexError")
         return out
+
+    # ------------------------------------------------------------------ registry reads keyed by the peer
+    def _registry_fields(self):
+        if not hasattr(self, "_regs"):
+            regs = set()
+            for f in self.repo.funcs.values():
+                if f.name != "__init__" or f.cls is None:
+                    continue
+                for n in walk_no_nested(f.node):
+                    if isinstance(n, ast.Assign) and len(n.targets) == 1 and isinstance(n.targets[0], ast.Attribute) \
+                            and isinstance(n.targets[0].value, ast.Name) and n.targets[0].value.id == "self" \
+                            and (isinstance(n.value, ast.Dict) and not n.value.keys
+                                 or isinstance(n.value, ast.Call) and call_name(n.value) == "dict" and not n.value.args and not n.value.keywords):
+                        regs.add(n.targets[0].attr)
+            self._regs = regs
+        return self._regs
+
+    def _is_registry(self, e):
+        return isinstance(e, ast.Attribute) and e.attr in self._registry_fields()
+
+    def _header_keyed(self, fi, k):
+        """the key expression is (a local bound to) a field of a received message's header"""
+        def from_header(e):
+            return any(isinstance(x, ast.Attribute) and x.attr in ("hop_by_hop", "end_to_end") and isinstance(x.value, ast.Attribute)
+                       and x.value.attr == "header" for x in ast.walk(e))
+        if from_header(k):
+            return True
+        if isinstance(k, ast.Name):
+            defs = [n.value for n in walk_no_nested(fi.node) if isinstance(n, ast.Assign) and len(n.targets) == 1
+                    and isinstance(n.targets[0], ast.Name) and n.targets[0].id == k.id]
+            return bool(defs) and all(from_header(d) for d in defs)
+        return False
+
+    def _membership_guarded(self, fi, sub):
+        from .astutil import guards
+        cache = self.__dict__.setdefault("_guard_cache", {})
+        if fi.qual not in cache:
+            g = guards(fi.node)
+            owner = {}
+            for st in walk_no_nested(fi.node):
+                if isinstance(st, ast.stmt):
+                    hdr = [st.test] if isinstance(st, (ast.If, ast.While)) else [st.iter] if isinstance(st, ast.For) else \
+                        [i.context_expr for i in st.items] if isinstance(st, ast.With) else \
+                        [] if isinstance(st, (ast.Try, ast.FunctionDef, ast.AsyncFunctionDef, ast.ClassDef)) else [st]
+                    for h in hdr:
+                        for x in ast.walk(h):
+                            owner.setdefault(id(x), st)
+            cache[fi.qual] = (g, owner)
+        g, owner = cache[fi.qual]
+        st = owner.get(id(sub))
+        want = f"{ast.unparse(sub.slice)} in {ast.unparse(sub.value)}"
+        if st is None:
+            return False
+        if any(ast.unparse(t) == want and v is True for t, v in g.get(id(st), [])):
+            return True
+        from .paths import implied_atoms
+        for t, v in g.get(id(st), []):
+            if implied_atoms(t, v).get(want) is True:
+                return True
+        # to the right of the membership test in the same `and` chain
+        if isinstance(st, (ast.If, ast.While)) and isinstance(st.test, ast.BoolOp) and isinstance(st.test.op, ast.And):
+            seen = False
+            for v in st.test.values:
+                if any(x is sub for x in ast.walk(v)):
+                    return seen
+                if ast.unparse(v) == want:
+                    seen = True
+        return False
 
     # ------------------------------------------------------------------ escape sets
     def escapes(self, fi, _stack=None):
@@ -422,6 +495,11 @@ def _guarded_by_has_avp(fi, attr_node):
     def test_has(t):
         if isinstance(t, ast.BoolOp) and isinstance(t.op, ast.And):
             return any(test_has(v) for v in t.values)
+        if isinstance(t, ast.Name):
+            # a local that holds the answer of has_avp (bound once, before)
+            defs = [n.value for n in walk_no_nested(fi.node) if isinstance(n, ast.Assign) and len(n.targets) == 1
+                    and isinstance(n.targets[0], ast.Name) and n.targets[0].id == t.id]
+            return len(defs) == 1 and ast.unparse(defs[0]) in wants
         return ast.unparse(t) in wants
 
     def visit(stmts, guarded):
